@@ -67,6 +67,12 @@ func genCloseFail(r *rand.Rand, idx int) *closeFailCase {
 	after := []string{"data", "bad-seq", "close", "data"}
 	r.Shuffle(len(after), func(i, j int) { after[i], after[j] = after[j], after[i] })
 	cf.After = after[:1+r.Intn(len(after))]
+	if cf.Mode == "timeout" {
+		// fixed orders, so that "the peer closes, then names the sid again" is
+		// there in every run (and within the first cases)
+		cf.After = [][]string{{"close", "data", "bad-seq"}, {"data", "close", "data"}, {"bad-seq", "data", "close"}, {"close", "bad-seq", "data"}}[(idx/100)%4]
+		cf.Carrier = "iq"
+	}
 	if cf.Mode == "answered" {
 		q := idx / 20
 		ord := (q/5)*2 + q%5 - 1 // the how-manieth answered case this is
